@@ -361,97 +361,9 @@ func streamC07(env *runEnv) {
 		if env.thorough() {
 			nb, size = 8, 48<<20
 		}
-		var backends []*tagBackend
-		for i := 0; i < nb; i++ {
-			tag := fmt.Sprintf("<bulk-%d-%d>", env.seed, i)
-			sz := size
-			nbk := newTagBackend([]byte(strings.Repeat(tag, sz/len(tag))))
-			nbk.piece = 65536 // full-size relay packets
-
-			backends = append(backends, nbk)
-		}
-		type bulkRes struct {
-			n       int
-			verdict string
-		}
-		res := make([]bulkRes, nb)
-		var wg sync.WaitGroup
-		for i := 0; i < nb; i++ {
-			wg.Add(1)
-			go func(i int) {
-				defer wg.Done()
-				b := backends[i]
-				slow := i%2 == 0
-				transport := []string{"ws", "legacy"}[i%2]
-				if slow {
-					transport = []string{"legacy", "ws"}[(i/2)%2]
-				}
-				host, port := splitHostPort(b.addr)
-				c, err := openTunnel(srv.inst, tunnelScript{transport: transport, id: fmt.Sprintf("{c07-bulk-%d-%d}", env.seed, i)})
-				if err != nil {
-					res[i] = bulkRes{0, "ERR:" + err.Error()}
-					return
-				}
-				defer c.close()
-				if slow {
-					// a small receive buffer: the gateway's writes to this client stall soon
-					switch cc := c.(type) {
-					case *wsConn:
-						if tc, ok := cc.c.(*net.TCPConn); ok {
-							tc.SetReadBuffer(65536)
-						}
-					case *legacyConn:
-						if tc, ok := cc.out.(*net.TCPConn); ok {
-							tc.SetReadBuffer(65536)
-						}
-					}
-				}
-				for _, p := range [][]byte{
-					packet(ptHandshake, handshakeBody(1, 0, 0, 2)),
-					packet(ptTunnelCreate, tunnelCreateBody(0, fmt.Sprintf("ok|bulk%d|%s", i, b.addr), true)),
-					packet(ptTunnelAuth, tunnelAuthBody("pc")),
-					packet(ptChannelCreate, channelCreateBody(host, port)),
-				} {
-					c.send(p)
-					if transport == "legacy" {
-						time.Sleep(15 * time.Millisecond)
-					}
-				}
-				got := 0
-				verdict := "own-bytes-only"
-				deadline := time.Now().Add(20 * time.Second)
-				for got < len(b.sends) && time.Now().Before(deadline) {
-					m, err := c.recv(4 * time.Second)
-					if err != nil {
-						verdict = "stream-ended-early"
-						break
-					}
-					if len(m) < 8 || int(m[0])|int(m[1])<<8 != ptData {
-						continue
-					}
-					body := m[8:]
-					if len(body) < 2 || int(body[0])|int(body[1])<<8 != len(body)-2 {
-						verdict = "malformed-data-packet"
-						break
-					}
-					pl := body[2:]
-					if got+len(pl) > len(b.sends) || string(b.sends[got:got+len(pl)]) != string(pl) {
-						verdict = "bytes-of-another-tunnel-or-altered"
-						break
-					}
-					got += len(pl)
-					if slow {
-						time.Sleep(200 * time.Microsecond) // the gateway's writes to this client stall now and then
-					}
-				}
-				res[i] = bulkRes{got, verdict}
-			}(i)
-		}
-		wg.Wait()
-		for i := 0; i < nb; i++ {
-			env.count("c07.bulk." + res[i].verdict)
-			env.emit("isolation", fmt.Sprintf("bulk-tunnel-%d-of-%d", i, nb), res[i].verdict)
-			backends[i].close()
+		for i, v := range bulkProbe(srv, nb, size, fmt.Sprintf("c07-bulk-%d", env.seed), true) {
+			env.count("c07.bulk." + v)
+			env.emit("isolation", fmt.Sprintf("bulk-tunnel-%d-of-%d", i, nb), v)
 		}
 	}
 	// legacy pairing: IN attaches to the OUT with the same connection id only
@@ -652,4 +564,99 @@ func inAgainCases(env *runEnv, srv *l2server) {
 		env.emit("inagain", ending, obs)
 		b.close()
 	}
+}
+
+// bulkProbe: nb tunnels at once (both transports, half of the clients reading slowly through a small
+// receive buffer), every host streaming size bytes of its own tag in full-size relay packets. Returns one
+// verdict per tunnel: "own-bytes-only" or what went wrong.
+func bulkProbe(srv *l2server, nb, size int, prefix string, tok bool) []string {
+	var backends []*tagBackend
+	for i := 0; i < nb; i++ {
+		tag := fmt.Sprintf("<%s-%d>", prefix, i)
+		nbk := newTagBackend([]byte(strings.Repeat(tag, size/len(tag))))
+		nbk.piece = 65536 // full-size relay packets
+		backends = append(backends, nbk)
+	}
+	ext := 0
+	if tok {
+		ext = 2
+	}
+	res := make([]string, nb)
+	var wg sync.WaitGroup
+	for i := 0; i < nb; i++ {
+		wg.Add(1)
+		go func(i int) {
+			defer wg.Done()
+			b := backends[i]
+			slow := i%2 == 0
+			transport := []string{"ws", "legacy"}[i%2]
+			if slow {
+				transport = []string{"legacy", "ws"}[(i/2)%2]
+			}
+			host, port := splitHostPort(b.addr)
+			c, err := openTunnel(srv.inst, tunnelScript{transport: transport, id: fmt.Sprintf("{%s-%d}", prefix, i)})
+			if err != nil {
+				res[i] = "ERR:" + err.Error()
+				return
+			}
+			defer c.close()
+			if slow {
+				// a small receive buffer: the gateway's writes to this client stall soon
+				switch cc := c.(type) {
+				case *wsConn:
+					if tc, ok := cc.c.(*net.TCPConn); ok {
+						tc.SetReadBuffer(65536)
+					}
+				case *legacyConn:
+					if tc, ok := cc.out.(*net.TCPConn); ok {
+						tc.SetReadBuffer(65536)
+					}
+				}
+			}
+			for _, p := range [][]byte{
+				packet(ptHandshake, handshakeBody(1, 0, 0, ext)),
+				packet(ptTunnelCreate, tunnelCreateBody(0, fmt.Sprintf("ok|bulk%d|%s", i, b.addr), tok)),
+				packet(ptTunnelAuth, tunnelAuthBody("pc")),
+				packet(ptChannelCreate, channelCreateBody(host, port)),
+			} {
+				c.send(p)
+				if transport == "legacy" {
+					time.Sleep(15 * time.Millisecond)
+				}
+			}
+			got := 0
+			verdict := "own-bytes-only"
+			deadline := time.Now().Add(20 * time.Second)
+			for got < len(b.sends) && time.Now().Before(deadline) {
+				m, err := c.recv(4 * time.Second)
+				if err != nil {
+					verdict = "stream-ended-early"
+					break
+				}
+				if len(m) < 8 || int(m[0])|int(m[1])<<8 != ptData {
+					continue
+				}
+				body := m[8:]
+				if len(body) < 2 || int(body[0])|int(body[1])<<8 != len(body)-2 {
+					verdict = "malformed-data-packet"
+					break
+				}
+				pl := body[2:]
+				if got+len(pl) > len(b.sends) || string(b.sends[got:got+len(pl)]) != string(pl) {
+					verdict = "bytes-of-another-tunnel-or-altered"
+					break
+				}
+				got += len(pl)
+				if slow {
+					time.Sleep(200 * time.Microsecond) // the gateway's writes to this client stall now and then
+				}
+			}
+			res[i] = verdict
+		}(i)
+	}
+	wg.Wait()
+	for _, b := range backends {
+		b.close()
+	}
+	return res
 }
